@@ -802,6 +802,29 @@ let apply_rewrite (r : Rng.t) (e : env) (top : ty) (s : src) (w : rewrite) : src
 let is_value_src (s : src) : bool =
   match s with SLam _ | SLit _ | STrue | SFalse | SType | SInt | SBool | SPi _ | SArrow _ -> true | _ -> false
 
+(* C01: make one COMPUTED definition need its own value - directly (`x = x + 1`) or through an earlier function of the group
+   that mentions it (`f = u => .. x ..; x = f 1` is produced when such an f exists): always to be rejected *)
+let rec selfref (r : Rng.t) (s : src) : src =
+  match s with
+  | SLet (ds, b) ->
+    let done_ = ref false in
+    let ds' = List.map (fun (x, an, d) ->
+        if (not !done_) && not (is_value_src d) && (an = Some SInt || an = None) && Rng.chance r 1 2
+           && (match d with SBin _ | SLit _ | SApp _ | SIf _ | SNeg _ -> true | _ -> false) then begin
+          done_ := true;
+          (x, an, (match Rng.int r 3 with
+               | 0 -> SBin ("+", d, SVar x)
+               | 1 -> SBin ("*", SVar x, d)
+               | _ -> SIf (SBin ("<", SVar x, SLit "0"), d, SLit "1")))
+        end else (x, an, selfref r d)) ds in
+    SLet (ds', if !done_ then b else selfref r b)
+  | SLam (x, im, an, b) -> SLam (x, im, an, selfref r b)
+  | SApp (a, b) -> SApp (selfref r a, selfref r b)
+  | SBin (o, a, b) -> SBin (o, selfref r a, selfref r b)
+  | SNeg a -> SNeg (selfref r a)
+  | SIf (c, a, b) -> SIf (selfref r c, selfref r a, selfref r b)
+  | _ -> s
+
 let rec misorder (r : Rng.t) (s : src) : src =
   match s with
   | SLet (ds, b) ->
